@@ -203,6 +203,10 @@ def contains(sx, container, item, st, node):
         elif hasattr(cv, "__pyvc_contains__"):
             return cv.__pyvc_contains__(sx, item, st, node)
         else:
+            from .sx import Unknown as _Unk
+            if isinstance(cv, _Unk) and not sx.spec_mode:
+                # membership in a value without contract: either answer (or TypeError)
+                return [(st, z3.Bool(fresh_name("unknown_in")), None), (st.fork(), None, Exc("TypeError"))]
             raise Unsupported("`in` on concrete %r" % (cv,), node)
     if isinstance(container, Ref):
         c = st.getcell(container.cell)
@@ -652,6 +656,12 @@ def setitem(sx, c, k, val, st, node):
         m = sx.reg.json_setitem(sx, c, k, val, st, node)
         if m is not None:
             return m
+    from .sx import Unknown as _Unk2
+    if isinstance(c, Conc) and isinstance(c.v, _Unk2) and not sx.spec_mode:
+        # storing into an object nothing is known about (state a change added to a class): no modelled object is affected, the
+        # store itself may fail
+        sx.uncontracted.append("item store into %s (line %s)" % (c.v.why, getattr(node, "lineno", "?")))
+        return [(st, None), (st.fork(), Exc("Exception", exact=False))]
     raise Unsupported("item store on %r" % (c,), node)
 
 
